@@ -105,7 +105,7 @@ Definition check (c : case) : bool :=
       match UnmarshalClientHello b, o with
       | Some c, Some c' => eqb_of CH_dec (CH_set_cached c None) c' &&
                            match CH_cachedPrivateHello c with Some m => list_eqb N.eqb (ch_extensions m) exts | None => false end &&
-                           (* the premise of C31_reparse_stable_partial holds for what was parsed *)
+                           (* C31_unmarshal_wellformed, observed as well: what was parsed is well-formed *)
                            wf_msgb (CH_private_of (CH_clear_raw c))
       | None, None => true
       | _, _ => false end
